@@ -367,6 +367,25 @@ SameBehaviour(D, D2, u, states, calls) ==
                  /\ r1.ok = r2.ok
                  /\ (r1.ok => StEq(r1.st, r2.st))
 
+\* diagnostics: the (action, arguments, state handle) triples on which two domains differ
+BehaviourDiffs(D, D2, u, st, handles, calls) ==
+  UNION {UNION {
+    {<<a.name, args, h, Holds3(a.pre, EnvOfCall(a, args), st[h].st, u, Eps, {}),
+       Holds3(ActionNamed(D2, a.name).pre, EnvOfCall(a, args), st[h].st, u, Eps, {}),
+       Succ(a.eff, EnvOfCall(a, args), st[h].st, u, Eps, {}),
+       Succ(ActionNamed(D2, a.name).eff, EnvOfCall(a, args), st[h].st, u, Eps, {})>> :
+       h \in {hh \in handles :
+               LET a2 == ActionNamed(D2, a.name)
+                   env == EnvOfCall(a, args)
+                   r1 == Succ(a.eff, env, st[hh].st, u, Eps, {})
+                   r2 == Succ(a2.eff, env, st[hh].st, u, Eps, {})
+               IN  ~(/\ Holds3(a.pre, env, st[hh].st, u, Eps, {}) = Holds3(a2.pre, env, st[hh].st, u, Eps, {})
+                     /\ r1.ok = r2.ok
+                     /\ (r1.ok => StEq(r1.st, r2.st)))}} :
+    args \in (IF calls = <<>> THEN CallsOf(D, u, a)
+              ELSE {c[2] : c \in {x \in Range(calls) : x[1] = a.name /\ Len(x[2]) = Len(a.params)}})} :
+    a \in {D.actions[i] : i \in {j \in DOMAIN D.actions : HasAction(D2, D.actions[j].name)}}}
+
 VocabSame(v1, v2) ==
   /\ v1.name = v2.name /\ v1.types = v2.types /\ v1.consts = v2.consts
   /\ v1.preds = v2.preds /\ v1.funcs = v2.funcs /\ v1.actions = v2.actions
@@ -772,6 +791,9 @@ Explain(e, st) ==
                 \cup {GroundGroup(st[e.d].D, a, env, a.eff[i].es, FALSE) : i \in {j \in DOMAIN a.eff : a.eff[j].k = "when"}}]
     [] e.c = "RunPlan" -> RunPlan_Exp(st[e.d].D, st[e.p].u, [i \in DOMAIN e.plan |-> CallOfJson(e.plan[i])],
                                       [facts |-> st[e.p].P.init.facts, fl |-> st[e.p].P.init.fl], e.allow, {})
+    [] e.c = "ExportDomain" -> IF Has(e.out, "tree")
+         THEN BehaviourDiffs(st[e.d].D, DomainOfTree(e.out.tree), st[e.u].u, st, Range(e.states), IF Has(e, "calls") THEN e.calls ELSE <<>>)
+         ELSE "n/a"
     [] e.c = "ApplyOp" -> Apply_Exp(st[st[e.op].d].D, st[st[e.op].u].u, st[e.op].act, st[e.op].args, st[e.s].st, e.allow, e.skip, {})
     [] e.c = "ParseProblem" -> ParseProblem_Exp(st[e.d].D, e.tree, {})
     [] e.c = "TypeMatrix" -> {<<a, b>> \in (TypeNamesOf(st[e.d].D) \cup {"object"}) \X (TypeNamesOf(st[e.d].D) \cup {"object"}) : SubTypeOf(st[e.d].D, a, b)}
